@@ -6,6 +6,11 @@ import Mouette.Lemmas.C04Medit
 import Mouette.Lemmas.C04Stl
 import Mouette.Lemmas.C04GeoChunks
 import Mouette.Lemmas.C04MeditRef
+import Mouette.Lemmas.C04Ref
+import Mouette.Lemmas.C04GeoAttrs
+import Mouette.Lemmas.C04GeoRef
+import Mouette.Lemmas.C04Tables
+import Mouette.Generated.C04Tables
 /-
 C04 — saving then loading a mesh is lossless within each format's vocabulary.
 
@@ -169,6 +174,135 @@ theorem geo_attr_chunk_partial (cd : Codec C) (sz : Geo.Sizes) (fp cp : List Nat
     Geo.stepImport cd sz fp cp g (Geo.attrChunk a) = some { g with attrs := g.attrs ++ [a] } :=
   Geo.stepImport_attrChunk cd sz fp cp g a hd hv hn
 
+/-! ### round 2 — P1 interoperability for obj, off, tet, xyz (Model/IORef.lean: independent writers and readers) -/
+
+/-- obj: mouette reads the layout of an independent writer (comment, `o`/`g` statements, `v x y z w`, faces before
+line elements): same vertices, every edge (undirected), every face of any arity, for ALL meshes -/
+theorem obj_reads_reference (cd : Codec C) (h : RoundTrips cd) (m : Raw C) :
+    importObj cd (refExportObj cd m) = some (refObjContent m)
+    ∧ (refObjContent m).verts = m.verts ∧ (refObjContent m).faces = m.faces
+    ∧ (refObjContent m).edges = m.edges.map keyify :=
+  ⟨importObj_refExportObj cd h m, rfl, rfl, rfl⟩
+
+/-- obj: the file mouette writes means `restrict m` to an independent obj reader (polyline `l`, unknown statements
+rejected), for ALL meshes and every export switch -/
+theorem obj_read_by_reference (cd : Codec C) (h : RoundTrips cd) (cfg : Cfg) (m : Raw C) :
+    refImportObj cd (exportObj cd cfg m) = some (restrictObj cfg m) :=
+  refImportObj_exportObj cd h cfg m
+
+/- off, FULL statement `importOff cd (refExportOff cd m) = some (restrictOff m)` does NOT hold (open findings
+   C04/off/quad-face/ref-loaded, C04/off/polygon-face/ref-loaded). -/
+
+/-- off: a standard OFF file of an independent writer, exact behaviour of mouette's reader -/
+theorem off_reads_reference_actual (cd : Codec C) (h : RoundTrips cd) (m : Raw C) (hf : ∀ f ∈ m.faces, f.length ≠ 2) :
+    importOff cd (refExportOff cd m)
+      = some { verts := m.verts, faces := ofArity 3 m.faces, cells := ofArity 4 m.faces } :=
+  importOff_refExportOff_actual cd h m hf
+
+/-- off: … which is the statement when every face is a triangle -/
+theorem off_reads_reference_partial (cd : Codec C) (h : RoundTrips cd) (m : Raw C)
+    (hall : ∀ f ∈ m.faces, f.length = 3) :
+    importOff cd (refExportOff cd m) = some (restrictOff m) := by
+  rw [importOff_refExportOff_actual cd h m (fun f hf => by rw [hall f hf]; decide)]
+  rw [ofArity_all 3 m.faces hall, ofArity_none 4 m.faces (fun f hf => by rw [hall f hf]; decide)]
+  rfl
+
+/-- off: the file mouette WRITES is right for an independent OFF reader, for ALL meshes (faces of any arity): the
+off defect is in the reader only -/
+theorem off_read_by_reference (cd : Codec C) (h : RoundTrips cd) (m : Raw C) :
+    refImportOff cd (exportOff cd m) = some (restrictOff m) :=
+  refImportOff_exportOff cd h m
+
+theorem tet_reads_reference (cd : Codec C) (h : RoundTrips cd) (m : Raw C) :
+    importTet cd (refExportTet cd m) = some (restrictTet m) :=
+  importTet_refExportTet cd h m
+
+/-- tet: an independent reader that checks the header keywords, the record count and every arity prefix -/
+theorem tet_read_by_reference (cd : Codec C) (h : RoundTrips cd) (m : Raw C) :
+    refImportTet cd (exportTet cd m) = some (restrictTet m) :=
+  refImportTet_exportTet cd h m
+
+/-- xyz: mouette reads the six-column `x y z nx ny nz` layout of an independent writer -/
+theorem xyz_reads_reference (cd : Codec C) (h : RoundTrips cd) (m : Raw C) :
+    importXyz cd (refExportXyz cd m) = some (restrictXyz m) :=
+  importXyz_refExportXyz cd h m
+
+theorem xyz_read_by_reference (cd : Codec C) (h : RoundTrips cd) (m : Raw C) :
+    refImportXyz cd (exportXyz cd m) = some (restrictXyz m) :=
+  refImportXyz_exportXyz cd h m
+
+/-! ### round 2 — geogram attributes in context, mixed cell arities with cell_ptr -/
+
+/- geogram, FULL statement (see above).  Still excluded below: cells that are not tetrahedra on EXPORT (no cell_ptr is
+   written; saving hexahedra fails earlier, open finding C04/geogram_ascii/hex-cell/save-raises), attributes on
+   cell_faces, and the token-file ↔ chunk-list layer (`parseFile`), which stay correspondence-checked. -/
+
+/-- geogram with ANY number of user attributes on every element set: the chunk list written by the exporter is read
+back as the same elements (faces of any arity) and `expectedAttrs g` = the attributes of every non-empty element set
+in file order, each with its container, name, type, arity and values (plus the `facet_ptr` block re-read as an integer
+attribute of the facets, as the Python importer does). -/
+theorem geo_load_save_attrs_partial (cd : Codec C) (h : RoundTrips cd) (g : Geo.GMesh C)
+    (hg : ∀ a ∈ g.attrs, Geo.GoodAttr cd a) (htet : ∀ c ∈ g.raw.cells, c.length = 4) :
+    Geo.importChunks cd (Geo.exportChunks cd g) = some (Geo.expectedGA g)
+    ∧ (Geo.expectedGA g).raw = { g.raw with hard := none } :=
+  ⟨Geo.importChunks_exportChunks_attrs cd h g hg htet, rfl⟩
+
+/-- every attribute of a non-empty element set comes back unchanged … -/
+theorem geo_attrs_come_back (g : Geo.GMesh C) (a : Geo.GAttr) (ha : a ∈ g.attrs)
+    (hne : (a.cont = .vertices) ∨ (a.cont = .edges ∧ g.raw.edges ≠ []) ∨
+           ((a.cont = .facets ∨ a.cont = .facetCorners) ∧ g.raw.faces ≠ []) ∨
+           ((a.cont = .cells ∨ a.cont = .cellCorners) ∧ g.raw.cells ≠ [])) :
+    a ∈ (Geo.expectedGA g).attrs :=
+  Geo.attrs_come_back g a ha hne
+
+/-- … and nothing is invented: what is read back is an attribute of the mesh or the `facet_ptr` block -/
+theorem geo_attrs_nothing_else (g : Geo.GMesh C) (a : Geo.GAttr) (ha : a ∈ (Geo.expectedGA g).attrs) :
+    a ∈ g.attrs ∨ a.name = Geo.facetPtrName :=
+  Geo.attrs_nothing_else g a ha
+
+/-- P1: the chunk list of an INDEPENDENT geogram writer (all [ATTS] first, `facet_ptr` and `cell_ptr` when needed)
+is read as the same mesh for faces AND cells of any, mixed, arity (repaired `cell_ptr` branch of the importer) -/
+theorem geo_reads_reference_mixed_cells (cd : Codec C) (h : RoundTrips cd) (m : Raw C) :
+    Geo.importChunks cd (Geo.refExportChunks cd m) = some (Geo.refExpected m)
+    ∧ (Geo.refExpected m).raw = { m with hard := none } :=
+  ⟨Geo.importChunks_refExportChunks cd h m, rfl⟩
+
+/-! ### round 2 — more translated dispatch tables (Generated/C04Tables.lean, re-extracted on every run) -/
+
+theorem geo_type_rows_bridge : Mouette.Generated.C04Tables.geoTypeRows = Tables.geoTypeRows := by decide
+theorem geo_byte_size_bridge : Mouette.Generated.C04Tables.geoByteSize = Tables.geoByteSize := by decide
+theorem geo_to_string_bridge : Mouette.Generated.C04Tables.geoToStringSpecial = Tables.geoToStringSpecial := by decide
+theorem obj_rows_bridge : Mouette.Generated.C04Tables.objRows = Tables.objRows := by decide
+
+/-- every type spelling the model accepts is a spelling of the source's `from_string`, for the same type -/
+theorem geo_typeOf_in_table (s : String) (t : Geo.AType) (h : Geo.typeOf s = some t) :
+    Tables.lookupStr Mouette.Generated.C04Tables.geoTypeRows s = some (Tables.pyName t) := by
+  rw [geo_type_rows_bridge]; exact Tables.typeOf_sound s t h
+
+/-- the type line / element size the model writes are `to_string()` / `byte_size()` of the source tables, and are read
+back as the same type by the source's `from_string` table and by the model -/
+theorem geo_header_from_table (t : Geo.AType) :
+    (Tables.lookupStr Mouette.Generated.C04Tables.geoByteSize (Tables.pyName t)).map
+        (fun n => [Tok.kw ("\"" ++ Tables.toStringOf Mouette.Generated.C04Tables.geoToStringSpecial t ++ "\""), Tok.int n])
+      = some (Geo.AType.header t)
+    ∧ Geo.typeOf ("\"" ++ Tables.toStringOf Mouette.Generated.C04Tables.geoToStringSpecial t ++ "\"") = some t
+    ∧ Tables.lookupStr Mouette.Generated.C04Tables.geoTypeRows
+        ("\"" ++ Tables.toStringOf Mouette.Generated.C04Tables.geoToStringSpecial t ++ "\"") = some (Tables.pyName t) := by
+  rw [geo_type_rows_bridge, geo_byte_size_bridge, geo_to_string_bridge]; exact Tables.header_table t
+
+/-- obj: a line whose prefix is not in the source's dispatch chain is ignored by the model -/
+theorem obj_unlisted_prefix_ignored (cd : Codec C) (r : Raw C) (k : String) (rest : Line)
+    (h : Tables.lookupStr Mouette.Generated.C04Tables.objRows k = none) : stepObj cd r (.kw k :: rest) = some r := by
+  rw [obj_rows_bridge] at h; exact Tables.stepObj_unlisted cd r k rest h
+
+/-- obj: a line with a listed prefix changes only the list its branch appends to -/
+theorem obj_listed_prefix_target (cd : Codec C) (r r' : Raw C) (k tgt : String) (rest : Line)
+    (h : Tables.lookupStr Mouette.Generated.C04Tables.objRows k = some tgt)
+    (hs : stepObj cd r (.kw k :: rest) = some r') :
+    (tgt ≠ "vertices" → r'.verts = r.verts) ∧ (tgt ≠ "faces" → r'.faces = r.faces) ∧
+    (tgt ≠ "edges" → r'.edges = r.edges) ∧ r'.cells = r.cells := by
+  rw [obj_rows_bridge] at h; exact Tables.stepObj_listed cd r r' k tgt rest h hs
+
 /-! ### kinds outside the vocabulary are absent -/
 
 theorem obj_no_cells (cfg : Cfg) (m : Raw C) : (restrictObj cfg m).cells = [] := rfl
@@ -230,6 +364,19 @@ def geoMesh : Geo.GMesh Unit :=
     attrs := [{ cont := .vertices, name := "\"w\"", typ := .int, dim := 1, vals := List.replicate 6 (.int 7) },
               { cont := .facetCorners, name := "\"b\"", typ := .bool, dim := 1, vals := List.replicate 7 (.int 1) }],
     adj := [4294967295, 4294967295, 4294967295, 4294967295] }
+
+-- the hypotheses of `geo_load_save_attrs_partial` are satisfiable by the attributes of `geoMesh` (non-vacuity)
+example : ∀ a ∈ geoMesh.attrs, Geo.GoodAttr unitCodec a := by
+  unfold Geo.GoodAttr; decide
+
+def mixedCells : Raw Unit :=
+  { verts := List.replicate 9 ((), (), ()), faces := [[0, 1, 2, 3], [4, 5, 6]],
+    cells := [[0, 1, 2, 3, 4, 5, 6, 7], [4, 5, 6, 8]] }
+
+example : (Geo.importChunks unitCodec (Geo.refExportChunks unitCodec mixedCells)).map (·.raw.cells)
+    = some [[0, 1, 2, 3, 4, 5, 6, 7], [4, 5, 6, 8]] := by decide
+
+example : refImportOff unitCodec (exportOff unitCodec quadMesh) = some (restrictOff quadMesh) := by decide
 
 -- file level (tokens → chunks → mesh), with attributes: a test on one mesh
 set_option maxRecDepth 100000 in
